@@ -63,7 +63,11 @@ func TestCheck(t *testing.T) {
 			continue
 		}
 		if *fList {
-			fmt.Println(u.Prop, u.Name, max(u.Shards, 1))
+			n := 1
+			if *fTier == "thorough" {
+				n = max(u.Shards, 1) // intra-unit sharding only in the thorough tier
+			}
+			fmt.Println(u.Prop, u.Name, n)
 			continue
 		}
 		if replay != nil && replay.Unit != u.Name {
@@ -75,7 +79,7 @@ func TestCheck(t *testing.T) {
 			continue
 		}
 		res := &UnitResult{Property: u.Prop, Unit: u.Name, Outcomes: map[string]int64{}, Exhaustive: true, BoundCompleted: 1 << 30}
-		c := &Ctx{T: t, Tier: *fTier, Res: res, Replay: replay, Budget: *fBudget, Shard: *fShard, NShards: *fN, Sharded: u.Shards > 1 && *fExact != ""}
+		c := &Ctx{T: t, Tier: *fTier, Res: res, Replay: replay, Budget: *fBudget, Shard: *fShard, NShards: *fN, Sharded: u.Shards > 1 && *fExact != "" && *fTier == "thorough" && *fN > 1}
 		start := time.Now()
 		func() {
 			defer func() {
